@@ -109,7 +109,7 @@ func runMG(c MGCase) error {
 }
 
 func TestTCPMuxGroupCredentials(t *testing.T) {
-	fx.Run(t, fx.Spec[MGCase]{Prop: "C07", Name: "tcpmux_group_credentials", Quick: 300, Thorough: 10000, Gen: genMG, Run: runMG,
+	fx.Run(t, fx.Spec[MGCase]{Prop: "C07", Name: "tcpmux_group_credentials", Journal: true, Quick: 300, Thorough: 10000, Gen: genMG, Run: runMG,
 		Class: func(c MGCase) fx.Class {
 			diff := false
 			for _, p := range c.Members {
